@@ -24,7 +24,7 @@ from typedpy.structures import (AbstractStructure, FinalStructure, keys_of, Type
 from inspect import Parameter
 
 from .. import dump, gen
-from .construct import make_ctx, err_name, rename_inline
+from .construct import make_ctx, err_name, rename_inline, fix_accepts
 
 BUILTIN_BASES = {"Structure": Structure, "ImmutableStructure": ImmutableStructure,
                  "FinalStructure": FinalStructure, "AbstractStructure": AbstractStructure}
@@ -32,6 +32,7 @@ FIELD_NAMES = ["a", "b", "c", "d", "e1", "f_2"]
 KW_DEFAULT_KINDS = {"integer", "number", "float", "string", "boolean", "enumLit", "enumCls", "seqAny", "seqOf",
                     "seqPos", "setAny", "setOf", "tupleOf", "tuplePos", "mapAny", "mapOf", "anything"}
 NO_DEFAULT_KINDS = {"struct", "noneF"}
+SCALAR_KINDS = {None, "integer", "number", "float", "string", "boolean", "enumLit", "enumCls", "noneF", "anything"}
 ATTR_VALUES = {"bool": True, "list": [1, 2], "dict": {"k": 1}, "bareType": int, "generic": list[int], "other": 5,
                "union": int | str}   # PEP 604 union of bare types (types.UnionType)
 CLASS_FORM = {"integer": Integer, "string": String, "boolean": typedpy.Boolean, "number": typedpy.Number,
@@ -1021,7 +1022,19 @@ def ctor_probes(cls, env, vg):
             kws.append(base + [[vg.rng.choice(sorted(cls._constants)), 1]])
     elif base is None and not req:
         kws.append([])
-    return kws
+    # a None nested inside a container value (an explicit None attribute of an inline structure ...) touches instance
+    # equality of the value-level model (C01/C02's subject), not class definition: keep None at the top level only
+    return [kw for kw in kws if not any(nested_none(v) for _, v in kw)]
+
+
+def nested_none(v, top=True):
+    if v is None:
+        return not top
+    if isinstance(v, list):
+        return any(nested_none(x, False) for x in v)
+    if isinstance(v, dict):
+        return any(nested_none(x, False) for x in v.values())
+    return False
 
 
 def ctor_run(cls, env, vg):
@@ -1180,6 +1193,10 @@ def observe_define(st, cls, env, vg):
                 earlier += [n for n, p in e.__signature__.parameters.items() if p.default is None]
         rec["shadowed"] = sorted(set(rec["missing_required"]) & set(earlier))
         rec["redeclared"] = sorted(set(rec["missing_required"]) & own)
+        # a base's Constant that is a Field in the subclass (the subclass, or another branch of the hierarchy that comes
+        # first in the MRO, replaced it): its requiredness is the replacing declaration's business
+        rec["replaced_constants"] = sorted(n for n in rec["missing_required"]
+                                           if n in consts and not isinstance(fields.get(n), Constant))
         obs["bases"].append(rec)
     inherited = []
     for name, f in fields.items():
@@ -1418,6 +1435,9 @@ def line(case, impl):
             s["names"] = effective_names(st)
         if st["op"] == "define":
             s["src"] = dict(st["src"], entries=effective_entries(st["src"]["entries"]))
+            if any(e.get("decl", {}).get("k") not in SCALAR_KINDS for _, e in s["src"]["entries"]):
+                # nested class references: `isinstance` accepts the class itself (flat hierarchies inside declarations)
+                s["src"] = fix_accepts(copy.deepcopy(s["src"]))
         if st["op"] == "derive" and "ok" in r and r["ok"]:
             s["impl"] = {"fields": r["obs"]["fields"], "required": r["obs"]["required"]}
         if st["op"] in ("define", "derive") and r.get("struct"):
@@ -1518,6 +1538,7 @@ def bridge_correspondence(what, r, m):
     for k in ("order", "immFields", "defOrder", "accepts"):
         if ms[k] != rs[k]:
             return f"{what}: bridge {k} differs: model {ms[k]} real {rs[k]}"
+    has_inline = '"inline": true' in json.dumps(rs["decl"])
     for i, (rc, mc) in enumerate(zip(r.get("ctor", []), m.get("ctor", []))):
         rr, mr = rc["res"], mc["res"]
         kw = json.dumps(rc["kw"])[:300]
@@ -1530,6 +1551,10 @@ def bridge_correspondence(what, r, m):
         elif "ok" in rr:
             return f"{what}: constructor {kw}: model raises {mr['err']}, real code accepts"
         elif rr["err"] != mr["err"] and rr["err"] not in mc.get("errs", []):
+            # several invalid members INSIDE an inline StructureReference value: which of them the nested constructor
+            # meets first is the value-level model's (C02's) subject, not the class's
+            if has_inline and {rr["err"], mr["err"]} <= {"TypeError", "ValueError"} and "StructureReference" in (rr.get("msg") or ""):
+                continue
             return f"{what}: constructor {kw}: exception class differs: model {mr['err']} {mc.get('errs')}, real {rr['err']}: {rr.get('msg')}"
         msg = via_correspondence(what, kw, rc.get("via"), mc.get("via"), mc.get("errs", []))
         if msg:
@@ -1576,8 +1601,19 @@ def canon_decl(d):
 def tags(case, impl, model):
     out = ["stream:" + case.get("stream", "?"), "mode:" + case.get("mode", "?"),
            f"guards:{int(case['guards']['consts'])}{int(case['guards']['nontypedpy'])}"]
-    for st, r in zip(case["steps"], impl.get("steps", [])):
+    mo = model or {}
+    msteps = (mo.get("out", mo) or {}).get("steps") or []
+    for k, (st, r) in enumerate(zip(case["steps"], impl.get("steps", []))):
         res = "ok" if "ok" in r else ("skipped" if "skipped" in r else "raises:" + r.get("err", "?"))
+        for c in r.get("ctor") or []:
+            out.append("ctor:" + ("ok" if "ok" in c["res"] else c["res"]["err"]))
+            for e, v in (c.get("via") or {}).items():
+                if e != "ctor":
+                    out.append(f"entry:{e}:" + ("ok" if "ok" in v else ("abstract-refusal" if v.get("abstract") else v["err"])))
+        if r.get("struct") and k < len(msteps) and (msteps[k] or {}).get("struct"):
+            out.append("bridge-wf:" + str(msteps[k]["struct"].get("wf")).lower())
+        for br in (r.get("obs") or {}).get("base_rejects", []) if isinstance(r.get("obs"), dict) else []:
+            out.append("base-rejects")
         if st["op"] == "define":
             nb = len([b for b in st["src"]["bases"] if not b.startswith("Mx")])
             out.append(f"define:{res}")
